@@ -13,7 +13,7 @@ import (
 func init() {
 	register("C02", &propDef{
 		Level:   "other",
-		Explain: "The matcher is inlined into one propositional formula over canonical atoms (role tests, flags, string equalities, family/position comparisons; symmetric atoms have their operands sorted) and decided by exhaustive truth tables: M1 a true result implies both terms are licenses (resp. both references), M2 a true result implies compatible exceptions and the exception gate is (neither has one) or (both have one and they are equal), M3 symmetry: the formula is equivalent to itself with the two terms swapped, M4 reflexivity: with both terms identified it reduces to true, M5 every suffix strip removes exactly the length of the tested suffix and an '-or-later' token sets the plus flag, M6/T7 the plus cells call the in-range test with the non-plus term first and 'later' means a greater position. The table the formula's position atoms read is checked exhaustively (T1-T4), its readers structurally (T5, T6, T8). Not decided: per-pair outcomes (value level) beyond what the table rules give.",
+		Explain: "The matcher is inlined into one propositional formula over canonical atoms (role tests, flags, string equalities, family/position comparisons; symmetric atoms have their operands sorted) and decided by exhaustive truth tables: M1 a true result implies both terms are licenses (resp. both references), M2 a true result implies compatible exceptions and the exception gate is (neither has one) or (both have one and they are equal), M3 symmetry: the formula is equivalent to itself with the two terms swapped, M4 reflexivity: with both terms identified it reduces to true, M7 for two references the matcher is exactly identical LicenseRef id and identical-or-both-absent DocumentRef under ==, M5 every suffix strip removes exactly the length of the tested suffix and an '-or-later' token sets the plus flag, M6/T7 the plus cells call the in-range test with the non-plus term first and 'later' means a greater position. The table the formula's position atoms read is checked exhaustively (T1-T4), its readers structurally (T5, T6, T8). Not decided: per-pair outcomes (value level) beyond what the table rules give.",
 		Run:     rulesC02,
 		Trusted: []string{"go/ssa lowering", "atoms are treated as independent propositions except for the identities x==x, EqualFold(x,x), x>x"},
 	})
